@@ -336,6 +336,7 @@ async fn shared_limiter(cx: &mut Cx, inst: usize, out: &mut Out) {
             }));
         }
         let (mut admitted, mut denied) = (0i64, 0i64);
+        let mut inverted = 0i64;
         let mut answers = vec![];
         for h in hs {
             let (proto, a, st) = match h.await {
@@ -343,6 +344,9 @@ async fn shared_limiter(cx: &mut Cx, inst: usize, out: &mut Out) {
                 Err(e) => (Proto::Http, WireAns::Broken(format!("client task failed: {e}")), 0),
             };
             cx.tally.account(proto, &a, st);
+            if crate::wire::stamp_inverted(&a) {
+                inverted += 1;
+            }
             match a {
                 WireAns::Ok(true, ..) => admitted += 1,
                 WireAns::Ok(false, ..) => {
@@ -358,7 +362,7 @@ async fn shared_limiter(cx: &mut Cx, inst: usize, out: &mut Out) {
         out.add("concurrent_requests", nreq as u64);
         if admitted != b || admitted + denied != nreq as i64 {
             out.violation(
-                "C09",
+                if admitted + denied == nreq as i64 { crate::wire::race_tag(admitted, b, inverted) } else { "C09" },
                 format!("{nreq} simultaneous unit requests over mixed protocols on a fresh key, burst {b}: {admitted} allowed, {denied} denied, {} unanswered; want exactly {b} allowed", nreq as i64 - admitted - denied),
                 cx.tail(from),
             );
@@ -481,8 +485,12 @@ async fn key_families(cx: &mut Cx, inst: usize, out: &mut Out) {
         let l = Logical { key: key.clone(), b, c: 1, p: 86400, q: Some(1) };
         let answers = simultaneous(&cx.ports, &mut cx.rng, &l, nreq).await;
         let mut admitted = 0i64;
+        let mut inverted = 0i64;
         for (proto, a, st) in &answers {
             cx.tally.account(*proto, a, *st);
+            if crate::wire::stamp_inverted(a) {
+                inverted += 1;
+            }
             if let WireAns::Ok(true, ..) = a {
                 admitted += 1;
             }
@@ -494,7 +502,7 @@ async fn key_families(cx: &mut Cx, inst: usize, out: &mut Out) {
         cx.log.push(format!("{nreq} simultaneous unit requests on key 4 ({} bytes): {}", key.len(), answers.iter().map(|x| format!("{:?}:{}", x.0, x.1.show())).collect::<Vec<_>>().join(" ")));
         out.bump("family_races");
         if admitted != (nreq as i64).min(b) {
-            out.violation("C09", format!("{nreq} simultaneous unit requests over mixed protocols on an unused key of {} bytes, burst {b}, while a key that differs from it in the last byte only is exhausted: {admitted} admitted, want {}", key.len(), (nreq as i64).min(b)), cx.tail(from));
+            out.violation(crate::wire::race_tag(admitted, (nreq as i64).min(b), inverted), format!("{nreq} simultaneous unit requests over mixed protocols on an unused key of {} bytes, burst {b}, while a key that differs from it in the last byte only is exhausted: {admitted} admitted, want {}", key.len(), (nreq as i64).min(b)), cx.tail(from));
         }
     }
 }
@@ -966,6 +974,7 @@ async fn freeze(cx: &mut Cx, inst: usize, child: &mut ChildGuard, out: &mut Out)
         tokio::time::sleep(Duration::from_millis(stop_ms)).await;
         let continued = signal(pid, libc::SIGCONT);
         let (mut admitted, mut denied, mut unanswered) = (0i64, 0i64, 0i64);
+        let mut inverted = 0i64;
         let mut answers = vec![];
         for h in hs {
             let (proto, a, st) = match h.await {
@@ -973,6 +982,9 @@ async fn freeze(cx: &mut Cx, inst: usize, child: &mut ChildGuard, out: &mut Out)
                 Err(e) => (Proto::Http, WireAns::Broken(format!("client task failed: {e}")), 0),
             };
             cx.tally.account(proto, &a, st);
+            if crate::wire::stamp_inverted(&a) {
+                inverted += 1;
+            }
             match &a {
                 WireAns::Ok(true, ..) => admitted += 1,
                 WireAns::Ok(false, ..) => {
@@ -1017,7 +1029,7 @@ async fn freeze(cx: &mut Cx, inst: usize, child: &mut ChildGuard, out: &mut Out)
         }
         if admitted > want || (unanswered == 0 && admitted != want) {
             out.violation(
-                "C09",
+                crate::wire::race_tag(admitted, want, inverted),
                 format!("{nreq} simultaneous unit requests over mixed protocols on a fresh key, burst {b}, 1 per 3600 s, the server process being stopped (SIGSTOP) for {stop_ms} ms {delay_us} us after their release: {admitted} allowed, {denied} denied, {unanswered} unanswered; one limiter admits exactly {want} whenever it gets to run"),
                 cx.tail(from),
             );
